@@ -292,7 +292,38 @@ def run(ctx):
         c["pathname"] = i % len(PATHNAMES)
     ctx.exhaustive = True
     ctx.evaluate(evaluate, cases, label="layout", chunk=40)
+    access_histories(ctx)
+
+
+def access_histories(ctx):
+    """ComposeAccess.tla: the accessors as a state machine - histories of accesses, edits through an accessor and files that
+    are replaced / corrupted / removed / appear elsewhere between two accesses, replayed on one real Compose object."""
+    from . import compose_access as CA
+    ctx.rule += ("; ComposeAccess.tla: TLC model-checks LoadedOnce / OnlyAccessFills / ServesDocument / FirstAccessIsDirectLoad / Frame "
+                 "over every reachable state and refutes each of three deviations (no cache, remembered failure, fall-back to the "
+                 "other file name); every history of ComposeAccessGen.tla (exhaustive per pair of kinds, random deep over all four) is "
+                 "replayed on a real Compose over a real directory in the three layouts, comparing after every access the document "
+                 "served, the object's identity, the caller's latest edit and the RuntimeError text")
+    base = open(os.path.join(core.SPEC_DIR, "MC_ComposeAccess.cfg")).read().replace("MaxFresh = 2", "MaxFresh = %d" % (1 if ctx.quick else 2))
+    ctx.require_ok(ctx.tlc("MC_ComposeAccess", cfg_text=base, must_cover=["Access", "Edit", "FileSet", "Decoy"], timeout=3000))
+    for dev, prop in (("Dev_NoCache", "LoadedOnce"), ("Dev_CacheFailure", "FirstAccessIsDirectLoad"), ("Dev_Fallback", "FirstAccessIsDirectLoad")):
+        r = ctx.tlc("MC_ComposeAccess", cfg_text=base.replace("%s = FALSE" % dev, "%s = TRUE" % dev).replace("MaxFresh = 2", "MaxFresh = 1"),
+                    expect_error=True, count=False)
+        if r.violated is None:
+            raise core.MachineryError("deviation %s should be refuted by TLC" % dev)
+        ctx.notes["deviation_%s" % dev] = "TLC counterexample: %s violated" % r.violated
+    pref = CA.measure_pref()
+    if pref is None:
+        ctx.notes["access_histories"] = "skipped: the library's preference between current and legacy names could not be measured"
+        return
+    cases = CA.generate(ctx, core, pref)
+    ctx.notes["access_histories"] = len(cases)
+    ctx.exhaustive = False
+    ctx.evaluate(CA.evaluate, cases, label="access", chunk=100)
 
 
 def replay(info):
+    if "hist" in info["case"]:
+        from . import compose_access as CA
+        return CA.evaluate(info["case"])
     return evaluate(info["case"])
